@@ -117,7 +117,7 @@ func TestC19Parameters(t *testing.T) {
 		for i := 0; i < nreq; i++ {
 			h := int64(rapid.IntRange(1, n).Draw(t, "reqHeight"))
 			resp := honest(h)
-			kinds := []string{"honest", "honest", "height", "field", "meta", "replay", "replay", "replay-raw"}
+			kinds := []string{"honest", "honest", "height", "field", "meta", "meta-missing-section", "replay", "replay", "replay-raw"}
 			if !ev.Excluded(sigParamsMetaUnhashed) {
 				kinds = append(kinds, "meta-unhashed")
 			}
@@ -140,6 +140,11 @@ func TestC19Parameters(t *testing.T) {
 				cp.Block.MaxGas = int64(rapid.IntRange(1, 1000).Draw(t, "maxGas"))
 				pb := cp.ToProto()
 				resp.Meta, _ = pb.Marshal()
+			case "meta-missing-section":
+				// a valid protobuf that is empty or leaves one of the four sections out
+				mv := metaVariants()
+				names := []string{"empty", "no-block", "no-evidence", "no-validator", "no-version"}
+				resp.Meta = mv[names[rapid.IntRange(0, len(names)-1).Draw(t, "missingSection")]]
 			case "meta-unhashed":
 				resp.Meta = alterUnhashedMeta(resp.Meta, rapid.IntRange(0, 2).Draw(t, "unhashedField"))
 			case "replay", "replay-raw":
@@ -150,9 +155,12 @@ func TestC19Parameters(t *testing.T) {
 					resp.Height = h
 				}
 			}
-			want := resp.Height == h && bytes.Equal(cmttypes.ConsensusParamsFromProto(mustParams(resp.Meta)).Hash(), chain[h].lb.ConsensusHash) &&
+			want := kind != "meta-missing-section" && resp.Height == h && bytes.Equal(cmttypes.ConsensusParamsFromProto(mustParams(resp.Meta)).Hash(), chain[h].lb.ConsensusHash) &&
 				bytes.Equal(cbor.Marshal(&resp.Parameters), cbor.Marshal(chain[h].p))
-			err := stateless.VerifVerifyParameters(ctx, core, resp, chain[h].lb)
+			err, panicked := safely(func() error { return stateless.VerifVerifyParameters(ctx, core, resp, chain[h].lb) })
+			if panicked != nil {
+				ev.Violation(t, "panic-verifyParameters", "provider parameters (%s) make verifyParameters panic: %v; trace=%v", kind, panicked, trace)
+			}
 			trace = append(trace, fmt.Sprintf("request h%d: %s (from h%d) -> err=%v, want accept=%v", h, kind, src, err, want))
 			fp = append(fp, h, kind, src, resp.Height)
 			rec.Label(fmt.Sprintf("%s:accepted=%v", kind, err == nil))
